@@ -344,6 +344,12 @@ class Adapter(object):
     accordingly, is a permitted outcome."""
     alts = (st.get("args") or {}).get("alts")
     exp = st.get("exp")
+    # a deviation step of the model of the code as built carries the outcomes of the intended design (`alt`): a
+    # server that has been repaired at this point diverts here instead of failing
+    from engine.core import canon
+    for alt in (st.get("args") or {}).get("alt") or []:
+      if canon(alt) == canon(obs):
+        return True
     if st["a"] != "Discover" or not alts or self.kind != "simple" or not isinstance(obs, dict):
       return False
     try:
@@ -355,7 +361,6 @@ class Adapter(object):
       e2["reply"]["yi"] = a2
       e2["offers"][st["args"]["c"]] = a2
       e2["free"] = sorted((set(exp["free"]) | {a1}) - {a2})
-      from engine.core import canon
       return canon(e2) == canon(obs)
     except Exception:
       return False
@@ -390,6 +395,8 @@ def canon_exp(beh):
       a["prl"] = sorted(a["prl"])
     if isinstance(a.get("alts"), list):
       a["alts"] = sorted(a["alts"])
+    for alt in a.get("alt") or []:
+      alt["reply"]["opts"] = sorted(alt["reply"]["opts"])
   return beh
 
 
@@ -399,4 +406,6 @@ def canon_free(beh, kind):
       e = st.get("exp") or {}
       if isinstance(e.get("free"), list):
         e["free"] = sorted(e["free"])
+      for alt in (st.get("args") or {}).get("alt") or []:
+        alt["free"] = sorted(alt["free"])
   return beh
